@@ -257,6 +257,14 @@ def check_template(tpl):
                     s = U.decode(w)[0]
                     ok = creal.match(s) is not None
                     obligation("VAL", "member", "ok" if ok else "MISMATCH", stream=s)
+                    # end to end: the same witness as objdump-style text through MasterOfPuppets (parser included)
+                    try:
+                        listing = jasmapi.render_listing(jasmapi.decode_stream(s))
+                        if listing is not None and jasmapi.parse_listing(listing) == s:
+                            got = jasmapi.run_pipeline(doc, listing, tpl.get("macros"), all_matches=False, ret="bool")
+                            obligation("E2E", "member", "ok" if got is True else "MISMATCH", stream=s)
+                    except Exception as e:
+                        obligation("E2E", "member", "MISMATCH", stream=s, detail=f"{type(e).__name__}: {e}")
                 else:
                     obligation("VAL", "member", "EMPTY-LANGUAGE" if v == "unsat" else v)
                 v, w = q.check(inter(WF0, z3.Concat(sU.REC((0,)), U.ANY), comp(L0)))
@@ -311,6 +319,11 @@ def run_templates(run, templates, procs=16):
             elif lemma == "TWIN":
                 if v != "refuted":
                     run.harness_error(f"template {r['id']}: wrong-spec twin was not distinguished (vacuous encoding?)")
+            elif lemma == "E2E":
+                if v == "MISMATCH":
+                    run.harness_error(f"template {r['id']}: end-to-end run on rendered witness {o.get('stream')!r} did not find the pattern ({o.get('detail')})")
+                else:
+                    run.count("traces_validated_end_to_end")
             elif lemma == "VAL":
                 if v == "MISMATCH":
                     run.harness_error(f"template {r['id']}: translator validation mismatch on {o.get('stream')!r} ({o['dir']})")
@@ -334,4 +347,95 @@ def run_templates(run, templates, procs=16):
         if len(run.samples) < 8:
             run.sample({"template": r["id"], "pattern": tpl.get("pattern", tpl["doc"].get("pattern")), "regex": r["regex"][:200], "obligations": [(o["lemma"], o["dir"], o["verdict"]) for o in r["obl"]][:12]})
     run.coverage_extra["pool_wall_s"] = round(time.time() - t0, 2)
+    return results
+
+
+# ------------------------------------------------------------------ equivalence of two compiled rules (C13, C19)
+def check_pair(tpl):
+    """tpl: id, feature, doc_a (+macros_a) , doc_b (+macros_b).  Decides L(R_a) = L(R_b) with extents, for every listing."""
+    from . import jasmapi
+
+    res = {"id": tpl["id"], "feature": tpl.get("feature", "pair"), "obl": [], "error": None, "regex": None, "queries": 0, "solver_s": 0.0, "identical": False}
+    try:
+        ra = jasmapi.compile_rule(tpl["doc_a"], tpl.get("macros_a"))
+    except Exception as e:
+        res["error"] = f"compile A: {type(e).__name__}: {e}"
+        return res
+    try:
+        rb = jasmapi.compile_rule(tpl["doc_b"], tpl.get("macros_b"))
+    except Exception as e:
+        res["error"] = f"compile B: {type(e).__name__}: {e}"
+        return res
+    res["regex"] = ra
+    res["regex_b"] = rb
+    if ra == rb:
+        res["identical"] = True
+        return res
+    U, M = worlds()
+    q = rx.Q(timeout_ms=tpl.get("timeout_ms", 60000))
+    try:
+        asta, ga = rx.parse(ra)
+        astb, gb = rx.parse(rb)
+        if ga or gb:
+            raise Unsupported("capture groups in a macro pair (texts differ)")
+        tM = rx.Tr(M)
+        sM = Spec(M)
+        S1, S2 = M.sigma((1,)), M.sigma((2,))
+        K2 = z3.Star(S2)
+        WF12 = inter(sM.WF((1, 2)), z3.Concat(z3.Star(S1), K2))
+        LA = tM.lang(asta, K2, (1,), (1, 2))
+        LB = tM.lang(astb, K2, (1,), (1, 2))
+        for direction, r in (("A-B", inter(WF12, LA, comp(LB))), ("B-A", inter(WF12, LB, comp(LA)))):
+            v, w = q.check(r)
+            o = {"lemma": "EQ", "dir": direction, "verdict": v}
+            if v == "sat":
+                stream, n1 = split_coloured(M, w)
+                xa, xb = real_admits(ra, stream, n1), real_admits(rb, stream, n1)
+                o.update(stream=stream, extent=n1, real_admits=xa, oracle_admits=xb, confirmed=xa != xb)
+            elif v == "unknown":
+                o["detail"] = w
+            res["obl"].append(o)
+    except Unsupported as e:
+        res["obl"].append({"lemma": "ENCODE", "dir": "-", "verdict": "unsupported", "detail": str(e)})
+    res["queries"], res["solver_s"] = q.n, q.wall
+    return res
+
+
+def run_pairs(run, pairs, procs=16):
+    import multiprocessing as mp
+
+    ctx = mp.get_context("fork")
+    if procs > 1 and len(pairs) > 1:
+        with ctx.Pool(min(procs, len(pairs))) as pool:
+            results = pool.map(check_pair, pairs, chunksize=max(1, len(pairs) // (procs * 8)))
+    else:
+        results = [check_pair(t) for t in pairs]
+    by_id = {t["id"]: t for t in pairs}
+    for r in results:
+        tpl = by_id[r["id"]]
+        run.count("pairs")
+        run.count("queries", r["queries"])
+        run.solver_s += r["solver_s"]
+        if r["error"]:
+            run.count("pair_compile_error")
+            run.failure(f"{r['feature']}/COMPILE/-", f"pair={r['id']} {r['error']}", {"kind": "pair", "pair": tpl, "error": r["error"]})
+            continue
+        if r["identical"]:
+            run.count("pairs_text_identical")
+        else:
+            run.count("pairs_text_differs")
+        for o in r["obl"]:
+            run.count(f"{o['lemma']}:{o['verdict']}")
+            if o["lemma"] == "ENCODE":
+                run.harness_error(f"pair {r['id']}: {o['detail']}")
+            elif o["verdict"] == "unknown":
+                run.inconc(f"pair {r['id']}: EQ {o['dir']} unknown")
+            elif o["verdict"] == "sat":
+                if o["confirmed"]:
+                    run.count("disagreements_replayed")
+                    run.failure(f"{r['feature']}/EQ/{o['dir']}", f"pair={r['id']} stream={o['stream']!r} extent={o['extent']} macro_rule_admits={o['real_admits']} inlined_rule_admits={o['oracle_admits']}", {"kind": "pair", "pair": tpl, "obligation": o, "regex_a": r["regex"], "regex_b": r["regex_b"]})
+                else:
+                    run.harness_error(f"pair {r['id']}: witness {o['stream']!r} did not reproduce")
+        if len(run.samples) < 8:
+            run.sample({"pair": r["id"], "macro_rule": tpl["doc_a"], "extra_macro_files": tpl.get("macros_a"), "inlined_rule": tpl["doc_b"], "identical_text": r["identical"], "obligations": [(o["lemma"], o["dir"], o["verdict"]) for o in r["obl"]]})
     return results
